@@ -11,16 +11,38 @@ import (
 	"golang.org/x/tools/go/ssa"
 )
 
-func (e *Enc) applyEffect(st *State, ef *effect) {
+func (e *Enc) applyEffect(st *State, ef *effect, argv ...*Val) {
 	if ef.all {
 		e.havocAll(st)
 		return
 	}
 	for n := range ef.names {
 		if srt, ok := arrSorts[n]; ok {
+			var old string
+			po := ef.paramOnly(n)
+			if po != nil && len(argv) > 0 && strings.HasPrefix(srt, "(Array Ref ") {
+				old = e.arrRaw(st, n, srt)
+			}
 			e.n++
 			st.m[n] = e.declare(fmt.Sprintf("%s@%d", n, e.n), srt)
 			e.wfArray(n, st.m[n])
+			if old != "" {
+				// "modifies *p": every cell other than the ones the pointer arguments address keeps its value
+				var ne []string
+				okAll := true
+				for idx := range po {
+					if idx >= len(argv) || argv[idx] == nil || len(argv[idx].c) != 1 {
+						okAll = false
+						break
+					}
+					ne = append(ne, not(eq("r", argv[idx].c[0])))
+				}
+				if okAll {
+					sort.Strings(ne)
+					nw := st.m[n]
+					e.assume(fmt.Sprintf("(forall ((r Ref)) (! (=> %s (= (select %s r) (select %s r))) :pattern ((select %s r))))", and(ne...), nw, old, nw))
+				}
+			}
 		} else {
 			e.havocAll(st)
 			return
@@ -375,7 +397,74 @@ func (e *Enc) dynOf(v ssa.Value) types.Type {
 	if t, ok := e.dyn[v]; ok {
 		return t
 	}
+	return e.sealedDyn(v.Type())
+}
+
+// sealedDyn: the one implementing type of a sealed interface type (claim validated by sealedImpl), else nil.
+func (e *Enc) sealedDyn(t types.Type) types.Type {
+	if nt, ok := t.(*types.Named); ok && nt.Obj().Pkg() != nil {
+		if impl, ok := e.db.sealed[typeKey(nt)]; ok {
+			return e.sealedImpl(nt, impl)
+		}
+	}
 	return nil
+}
+
+// sealedMethod: the concrete method an invoke on a sealed interface dispatches to.
+func (e *Enc) sealedMethod(recv types.Type, m *types.Func) *ssa.Function {
+	t := e.sealedDyn(recv)
+	if t == nil {
+		return nil
+	}
+	sel := types.NewMethodSet(t).Lookup(m.Pkg(), m.Name())
+	if sel == nil {
+		return nil
+	}
+	return e.prog.FuncValue(sel.Obj().(*types.Func))
+}
+
+// sealedImpl validates a `sealed` claim and returns the implementing pointer type: the interface must have an unexported
+// method (so only its own package can implement it) and exactly one named type of that package (or its pointer) may do so.
+func (e *Enc) sealedImpl(nt *types.Named, impl string) types.Type {
+	it, ok := nt.Underlying().(*types.Interface)
+	if !ok {
+		return nil
+	}
+	unexported := false
+	for i := 0; i < it.NumMethods(); i++ {
+		if !it.Method(i).Exported() {
+			unexported = true
+		}
+	}
+	if !unexported {
+		panic("sealed: " + nt.Obj().Name() + " has no unexported method, other packages can implement it")
+	}
+	var found types.Type
+	n := 0
+	sc := nt.Obj().Pkg().Scope()
+	for _, name := range sc.Names() {
+		tn, ok := sc.Lookup(name).(*types.TypeName)
+		if !ok || tn.IsAlias() {
+			continue
+		}
+		if _, isI := tn.Type().Underlying().(*types.Interface); isI {
+			continue
+		}
+		if named, ok := tn.Type().(*types.Named); ok && named.TypeParams().Len() > 0 {
+			continue
+		}
+		for _, cand := range []types.Type{tn.Type(), types.NewPointer(tn.Type())} {
+			if types.Implements(cand, it) {
+				n++
+				found = cand
+				break
+			}
+		}
+	}
+	if n != 1 || found == nil || typeKey(found) != impl {
+		panic(fmt.Sprintf("sealed: %s is implemented by %d types (claimed %s)", nt.Obj().Name(), n, impl))
+	}
+	return found
 }
 
 func (e *Enc) staticCallV(in *ssa.Call, callee *ssa.Function, args []ssa.Value, argv []*Val, st *State) {
@@ -465,7 +554,7 @@ func (e *Enc) staticCallV(in *ssa.Call, callee *ssa.Function, args []ssa.Value, 
 		e.note("call to %s: assumed to preserve %v (its callbacks are user code)", fname(callee), con.Preserves)
 		e.havocAllPreserving(st, con.Preserves)
 	} else {
-		e.applyEffect(st, ef)
+		e.applyEffect(st, ef, argv...)
 	}
 	var res *Val
 	if con != nil && con.Functional {
@@ -1184,9 +1273,39 @@ func (e *Enc) mathOp(in *ssa.Call, callee *ssa.Function, argv []*Val) bool {
 		return r(ite(app(">=", argv[0].c[0], "0"), "(_ +oo 11 53)", "(_ -oo 11 53)"))
 	case "NaN":
 		return r("(_ NaN 11 53)")
+	case "Float64bits":
+		return r(e.floatBits(argv[0].c[0], 64))
+	case "Float32bits":
+		return r(e.floatBits(argv[0].c[0], 32))
 	}
 	return false
 }
 
 // unreachedSite is the panic value of resultof("site#n") when that call has not been executed before the point of evaluation.
 type unreachedSite string
+
+// floatBits: math.Float64bits / Float32bits as an uninterpreted function from the IEEE value to its bit pattern (an
+// integer), with the facts that matter: range, injectivity off NaN (through an inverse), and the two zeros.
+func (e *Enc) floatBits(x string, w int) string {
+	sort, top, negz := "(_ FloatingPoint 11 53)", "18446744073709551616", "9223372036854775808"
+	pz, nz := "(_ +zero 11 53)", "(_ -zero 11 53)"
+	if w == 32 {
+		sort, top, negz = "(_ FloatingPoint 8 24)", "4294967296", "2147483648"
+		pz, nz = "(_ +zero 8 24)", "(_ -zero 8 24)"
+	}
+	f := e.declareFun(fmt.Sprintf("f%dbits", w), "("+sort+") Int")
+	g := e.declareFun(fmt.Sprintf("f%dfrombits", w), "(Int) "+sort)
+	key := fmt.Sprintf("floatbits%d:axioms", w)
+	if !e.declared[key] {
+		e.declared[key] = true
+		e.assume(eq(app(f, pz), "0"))
+		e.assume(eq(app(f, nz), negz))
+	}
+	r := app(f, x)
+	if k := "floatbits:" + r; !e.declared[k] {
+		e.declared[k] = true
+		e.assume(and(app("<=", "0", r), app("<", r, top)))
+		e.assume(imp(not(app("fp.isNaN", x)), eq(app(g, r), x)))
+	}
+	return r
+}
